@@ -7,13 +7,20 @@
       isReply (run).reply ∧ (run).shutdown = false
   where `run = handleLine mode hashes line world`.
 
-  Proved here (see DESIGN §5 C03): everything except "no Python exception escapes the
-  command handlers while the device conforms" — that part is established by the
-  correspondence runs with the oracle `Spec.c03`, not by a theorem.  The `_partial` suffix
-  marks this.
+  Proved here, in full, for the model of the manager (`Ledger/Protocol.lean` and everything
+  below it): `request_answered`, `line_answered`, `histories_answered` and
+  `line_meets_oracle`.  The proof is a program logic over the scripted-environment monad
+  (`Proofs/Conform*.lean`): every computation consumes one script entry per APDU (`Tracks`), and
+  against conforming answers every device-level operation returns or raises only what its
+  caller handles (`Safe`), by induction over the script for the chunked transfers and over the
+  block / brother lists for the block operations.  The only side condition is `Bounded`: a
+  `blocks` array has fewer than 2^32 members (a JSON line that long cannot exist; beyond it
+  `int.to_bytes(4)` overflows).  The earlier `…_partial` theorems are kept: they hold without
+  the conformance hypothesis.
 -/
 import PowHsm.Spec.C03
 import PowHsm.Proofs.Monad
+import PowHsm.Proofs.ConformMgr
 namespace PowHsm
 namespace Props.C03
 open Ledger Comm Spec
@@ -132,6 +139,84 @@ theorem histories_partial (m : Mode) (hs : Dongle.Hashes) (ps : List Parsed) :
         rcases hx with rfl | hx
         · exact hl.1 (hex x (by simp))
         · exact ih'.2 x hx
+
+/-! ### the full statement -/
+
+/-- **C03 for one request**: with no link repair pending and a device that keeps to its
+    protocol, `handle_request` returns (no Python exception leaves it), what it returns is a
+    JSON object with an integer errorcode, and no link repair is pending afterwards — for every
+    JSON value and both protocol modes. -/
+theorem request_answered (m : Mode) (hs : Dongle.Hashes) (j : Json) (w : World)
+    (hci : w.commIssue = false) (hb : Bounded j)
+    (hconf : deviceConforms w.script (handleRequest m hs j w).evs = true) :
+    ∃ r, (handleRequest m hs j w).val = .ok r ∧ isReply r = true ∧
+      (handleRequest m hs j w).w.commIssue = false := by
+  have h := handleRequest_safe m hs j hb w hci hconf
+  cases hv : (handleRequest m hs j w).val with
+  | ok r => exact ⟨r, rfl, handleRequest_reply_wellformed m hs j w r hv, h.1⟩
+  | error e => rw [hv] at h; exact h.2.elim
+
+/-- **C03 for one line**: exactly one reply is produced, it is a JSON object with an integer
+    errorcode, no exception left the handler and the server goes on. -/
+theorem line_answered (m : Mode) (hs : Dongle.Hashes) (p : Parsed) (w : World)
+    (hci : w.commIssue = false) (hb : ParsedBounded p)
+    (hconf : deviceConforms w.script (handleLine m hs p w).evs = true) :
+    ∃ lo, (handleLine m hs p w).val = .ok lo ∧ lo.exc = none ∧ isReply lo.reply = true ∧
+      lo.shutdown = false ∧ (handleLine m hs p w).w.commIssue = false := by
+  have h := handleLine_safe m hs p (fun r => isReply r = true) (handleRequest_reply_wellformed m hs)
+    (isReply_errReply _) hb w hci hconf
+  cases hv : (handleLine m hs p w).val with
+  | ok lo => rw [hv] at h; exact ⟨lo, rfl, h.2.1, h.2.2.1, h.2.2.2, h.1⟩
+  | error e => rw [hv] at h; exact h.2.elim
+
+/-- **C03 over a manager lifetime**: any sequence of request lines, in any order — every line
+    gets exactly one well-formed reply and the manager is still serving after the last one, as
+    long as the device keeps to its protocol throughout. -/
+theorem histories_answered (m : Mode) (hs : Dongle.Hashes) (ps : List Parsed) (w : World)
+    (hci : w.commIssue = false) (hb : ∀ p ∈ ps, ParsedBounded p)
+    (hconf : deviceConforms w.script (serve m hs ps w).evs = true) :
+    ∃ los, (serve m hs ps w).val = .ok los ∧ los.length = ps.length ∧
+      ∀ lo ∈ los, lo.exc = none ∧ isReply lo.reply = true ∧ lo.shutdown = false := by
+  have h := serve_safe m hs (fun r => isReply r = true) (handleRequest_reply_wellformed m hs)
+    (isReply_errReply _) ps hb w hci hconf
+  cases hv : (serve m hs ps w).val with
+  | ok los => rw [hv] at h; exact ⟨los, rfl, h.2.1, h.2.2⟩
+  | error e => rw [hv] at h; exact h.2.elim
+
+/-- the model's own observation of a line always satisfies the oracle `Spec.c03` that the
+    check evaluates on the implementation's observations -/
+theorem line_meets_oracle (m : Mode) (hs : Dongle.Hashes) (p : Parsed) (w : World) (hb : ParsedBounded p)
+    (lo : LineOut) (h : (handleLine m hs p w).val = .ok lo) :
+    c03 w.script w.commIssue
+      { reply := lo.reply, shutdown := lo.shutdown, events := (handleLine m hs p w).evs,
+        commIssue := (handleLine m hs p w).w.commIssue, exc := "" } = true := by
+  unfold c03
+  cases hci : w.commIssue with
+  | true => rfl
+  | false =>
+    cases hconf : deviceConforms w.script (handleLine m hs p w).evs with
+    | false => simp
+    | true =>
+      obtain ⟨lo', h1, _, h3, h4, _⟩ := line_answered m hs p w hci hb hconf
+      rw [h] at h1
+      injection h1 with h1
+      subst h1
+      simp [h3, h4]
+
+/-- the hypotheses are satisfiable by a non-trivial run: a `blockchainParameters` request
+    against a device that answers the parameters query -/
+example :
+    let w : World := { script := [.data (0x80 :: 0x11 :: 0 :: (List.replicate 68 7 ++ [1]))] }
+    let req : Json := .obj [("command", .str "blockchainParameters"), ("version", .int 5)]
+    let hs : Dongle.Hashes := { keccak := id, cbHash := id }
+    w.commIssue = false ∧ Bounded req ∧
+      deviceConforms w.script (handleRequest .v5 hs req w).evs = true ∧
+      (handleRequest .v5 hs req w).evs.length = 1 := by
+  refine ⟨rfl, ?_, by decide, by decide⟩
+  intro kvs hk bs hbs
+  injection hk with hk
+  subst hk
+  simp [Json.lookup] at hbs
 
 end Props.C03
 end PowHsm
